@@ -307,3 +307,13 @@ package common
 //@   ensures cur: slot / epc.Spec.SLOTS_PER_EPOCH != epc.PreviousEpoch.Epoch && slot / epc.Spec.SLOTS_PER_EPOCH == epc.CurrentEpoch.Epoch ==> (err == nil <==> index < epc.Spec.MAX_COMMITTEES_PER_SLOT && index < len(epc.CurrentEpoch.Committees[0])) && (err == nil ==> eqseq(committee, epc.CurrentEpoch.Committees[slot % epc.Spec.SLOTS_PER_EPOCH][index]))
 //@   ensures next: slot / epc.Spec.SLOTS_PER_EPOCH != epc.PreviousEpoch.Epoch && slot / epc.Spec.SLOTS_PER_EPOCH != epc.CurrentEpoch.Epoch && slot / epc.Spec.SLOTS_PER_EPOCH == epc.NextEpoch.Epoch ==> (err == nil <==> index < epc.Spec.MAX_COMMITTEES_PER_SLOT && index < len(epc.NextEpoch.Committees[0])) && (err == nil ==> eqseq(committee, epc.NextEpoch.Committees[slot % epc.Spec.SLOTS_PER_EPOCH][index]))
 //@   ensures other: slot / epc.Spec.SLOTS_PER_EPOCH != epc.PreviousEpoch.Epoch && slot / epc.Spec.SLOTS_PER_EPOCH != epc.CurrentEpoch.Epoch && slot / epc.Spec.SLOTS_PER_EPOCH != epc.NextEpoch.Epoch ==> err != nil
+
+// get_domain(state, domain_type, epoch) through the state interface: assumed here (C03 verifies Fork.GetDomain)
+//@ sort StateI = BeaconState
+//@ ufun state_domain_err(StateI, DomTypeT, int) bool
+//@ ufun state_domain(StateI, DomTypeT, int) DomT
+//@ func GetDomain(state, dom, messageEpoch) (d, err)
+//@   trusted
+//@   opt noalloc
+//@   ensures (err != nil) == state_domain_err(state, dom, messageEpoch)
+//@   ensures err == nil ==> d == state_domain(state, dom, messageEpoch)
